@@ -1,6 +1,6 @@
 //go:build verif
 
-package httpgrpc
+package zzcross
 
 import (
 	"context"
@@ -14,6 +14,7 @@ import (
 	"google.golang.org/grpc/status"
 	"google.golang.org/protobuf/types/known/anypb"
 
+	"github.com/fullstorydev/grpchan/httpgrpc"
 	"github.com/fullstorydev/grpchan/inprocgrpc"
 	"github.com/fullstorydev/grpchan/internal/zzfix"
 	zv "github.com/fullstorydev/grpchan/internal/zzverif"
@@ -80,16 +81,16 @@ func Verif_C02_Status() {
 	kind := []string{"U", "R", "C", "S"}[zv.Choose("kind", 4)]
 	nBefore := zv.Choose("responses-before-the-end", 2)
 	out := verifHandlerOutcome()
-	hooks := &verifHooks{}
-	hooks.Unary = func(tag string, ctx context.Context, req *verifMsg) (*verifMsg, error) {
+	hooks := &zzfix.Hooks{}
+	hooks.Unary = func(tag string, ctx context.Context, req *zzfix.Msg) (*zzfix.Msg, error) {
 		if out.err != nil {
 			return nil, out.err
 		}
-		return &verifMsg{Count: 7}, nil
+		return &zzfix.Msg{Count: 7}, nil
 	}
 	hooks.Stream = func(tag string, ss grpc.ServerStream) error {
 		for {
-			if err := ss.RecvMsg(&verifMsg{}); err != nil {
+			if err := ss.RecvMsg(&zzfix.Msg{}); err != nil {
 				break
 			}
 			if kind == "R" {
@@ -104,14 +105,13 @@ func Verif_C02_Status() {
 			n = 1
 		}
 		for i := 0; i < n; i++ {
-			ss.SendMsg(&verifMsg{Count: int32(i + 1)})
+			ss.SendMsg(&zzfix.Msg{Count: int32(i + 1)})
 		}
 		return out.err
 	}
 	var ch grpc.ClientConnInterface
 	if overHTTP {
-		c, _, _ := verifHTTP(hooks)
-		ch = c
+		ch = httpgrpc.VerifHTTPChannel(hooks)
 	} else {
 		c := &inprocgrpc.Channel{}
 		c.RegisterService(zzfix.Desc("a"), &zzfix.Srv{Name: "a", Hooks: hooks})
@@ -121,17 +121,17 @@ func Verif_C02_Status() {
 	defer cancel()
 	var final error
 	if kind == "U" {
-		final = ch.Invoke(ctx, "/a/U", &verifMsg{}, &verifMsg{})
+		final = ch.Invoke(ctx, "/a/U", &zzfix.Msg{}, &zzfix.Msg{})
 	} else {
 		cs, err := ch.NewStream(ctx, zzfix.StreamDescOf(kind), "/a/"+kind)
 		if err != nil {
 			zv.Fail("stream-created")
 			return
 		}
-		cs.SendMsg(&verifMsg{})
+		cs.SendMsg(&zzfix.Msg{})
 		cs.CloseSend()
 		for i := 0; i < 4; i++ {
-			e := cs.RecvMsg(&verifMsg{})
+			e := cs.RecvMsg(&zzfix.Msg{})
 			if e != nil {
 				final = e
 				break
